@@ -351,8 +351,9 @@ func TestC01_dag(t *testing.T) {
 
 /* ---------- bounded work: diamond chains ---------- */
 
-// C01Diamond: x_{i+1} = f_i(x_i) (op) g_i(x_i); the straight twin replaces the second branch
-// by an untracked constant of the same shape, so it has the same number of operations.
+// C01Diamond: x_{i+1} = f_i(x_i) (op) g_i(x_i); the straight twin computes the second branch
+// from a second tracked leaf of the same shape, so it has the same number of tracked operations
+// but no shared sub-expression.
 type C01Diamond struct {
 	N     int       `json:"n"`     // elements
 	Vals  []float64 `json:"vals"`  // leaf values
@@ -360,6 +361,23 @@ type C01Diamond struct {
 	F     []int     `json:"f"`     // per level: unary op of branch 1
 	G     []int     `json:"g"`     // per level: unary op of branch 2
 	J     []int     `json:"j"`     // per level: join op (0 add, 1 mul, 2 sub)
+	// FL / GL: how many times the unary op of a branch is applied in a row (absent = once):
+	// diamonds whose branches are long chains, i.e. graphs with many more contexts
+	FL []int `json:"fl,omitempty"`
+	GL []int `json:"gl,omitempty"`
+}
+
+func (c C01Diamond) fl(i int) int {
+	if i < len(c.FL) && c.FL[i] > 1 {
+		return c.FL[i]
+	}
+	return 1
+}
+func (c C01Diamond) gl(i int) int {
+	if i < len(c.GL) && c.GL[i] > 1 {
+		return c.GL[i]
+	}
+	return 1
 }
 
 func init() { register("C01/diamond", checkC01Diamond) }
@@ -398,11 +416,19 @@ func genC01Diamond(t *rapid.T) C01Diamond {
 		hi = 20
 	}
 	c := C01Diamond{N: rapid.IntRange(1, 6).Draw(t, "n"), Depth: rapid.IntRange(lo, hi).Draw(t, "depth")}
+	long := rapid.IntRange(0, 4).Draw(t, "longbranches") == 0
+	if long {
+		c.Depth = rapid.IntRange(2, 5).Draw(t, "shallow")
+	}
 	c.Vals = prog.DrawVals(t, c.N, 0, -8, 8)
 	for i := 0; i < c.Depth; i++ {
 		c.F = append(c.F, rapid.IntRange(0, len(diamondUnary)-1).Draw(t, "f"))
 		c.G = append(c.G, rapid.IntRange(0, len(diamondUnary)-1).Draw(t, "g"))
 		c.J = append(c.J, rapid.IntRange(0, 2).Draw(t, "j"))
+		if long {
+			c.FL = append(c.FL, rapid.SampledFrom([]int{1, 1, 2, 30, 70}).Draw(t, "fl"))
+			c.GL = append(c.GL, rapid.SampledFrom([]int{1, 1, 2, 30, 70}).Draw(t, "gl"))
+		}
 	}
 	return c
 }
@@ -416,17 +442,28 @@ func checkC01Diamond(c C01Diamond) *Failure {
 	if c.Depth > 24 || len(c.F) != c.Depth || len(c.G) != c.Depth || len(c.J) != c.Depth {
 		return failf("malformed case")
 	}
+	for i := 0; i < c.Depth; i++ {
+		if c.fl(i) > 200 || c.gl(i) > 200 {
+			return nil
+		}
+	}
 	build := func(diamond bool) (tensor.Tensor, tensor.Tensor, error) {
 		x := lib.MustNew([]int{c.N}, c.Vals, true)
-		k := lib.MustNew([]int{c.N}, c.Vals, false)
+		// the straight twin takes its second branches from another tracked leaf: the same
+		// number of tracked operations, but no sub-expression is shared
+		k := lib.MustNew([]int{c.N}, c.Vals, true)
 		cur := x
 		for i := 0; i < c.Depth; i++ {
-			a := diamondUnary[c.F[i]](cur)
-			var b tensor.Tensor
+			a := cur
+			for r := 0; r < c.fl(i); r++ {
+				a = diamondUnary[c.F[i]](a)
+			}
+			b := k
 			if diamond {
-				b = diamondUnary[c.G[i]](cur)
-			} else {
-				b = diamondUnary[c.G[i]](k)
+				b = cur
+			}
+			for r := 0; r < c.gl(i); r++ {
+				b = diamondUnary[c.G[i]](b)
 			}
 			var err error
 			cur, err = diamondJoin(c.J[i], a, b)
@@ -454,7 +491,13 @@ func checkC01Diamond(c C01Diamond) *Failure {
 	}
 	cur := rx
 	for i := 0; i < c.Depth; i++ {
-		a, b := un(c.F[i], cur), un(c.G[i], cur)
+		a, b := cur, cur
+		for r := 0; r < c.fl(i); r++ {
+			a = un(c.F[i], a)
+		}
+		for r := 0; r < c.gl(i); r++ {
+			b = un(c.G[i], b)
+		}
 		cur, _ = ctx.Binary([]string{"add", "mul", "sub"}[c.J[i]], a, b)
 	}
 	want, wsc := prog.Adjoint(cur, nil, 0, c.N)
@@ -495,6 +538,9 @@ func checkC01Diamond(c C01Diamond) *Failure {
 	}
 	evid.Eval()
 	evid.Class(fmt.Sprintf("c01.diamond_depth=%02d", c.Depth))
+	if len(c.FL) > 0 {
+		evid.Class("c01.diamond_with_long_branches")
+	}
 	evid.NonTrivial(c)
 	return nil
 }
